@@ -13,6 +13,38 @@ fn fixed_state() -> std::hash::RandomState {
     unsafe { std::mem::transmute::<[u64; 2], std::hash::RandomState>([1, 2]) }
 }
 
+/// Association-list model of `Kwargs::get` (the real one is an `Arc<HashMap>` lookup): a non-empty
+/// HashMap dropped inside the callee, plus the SipHash loops, need an unwinding bound under which
+/// the (infeasible) recursive drop glue of `Value` does not finish.  The conversion of the stored
+/// Value to the requested type is the real `ArgFromValue::from_value`.
+static mut KW0: Option<(&'static str, &'static Value)> = None;
+
+/// loop-free; enough to tell apart the key the harness stored from any other key
+fn key_is(a: &str, b: &str) -> bool {
+    let (a, b) = (a.as_bytes(), b.as_bytes());
+    a.len() == b.len() && a.len() > 1 && a[0] == b[0] && a[1] == b[1] && a[a.len() - 1] == b[b.len() - 1]
+}
+
+fn kwargs_get_model<'k, T>(_kw: &'k Kwargs, key: &'k str) -> TeraResult<Option<T>>
+where
+    T: ArgFromValue<'k, Output = T>,
+{
+    let slot = unsafe { KW0 };
+    if let Some((k, v)) = slot {
+        if key_is(k, key) {
+            return T::from_value(v).map(|x| Some(x));
+        }
+    }
+    Ok(None)
+}
+
+fn set_kwarg(key: &'static str, v: Value) {
+    let v: &'static Value = Box::leak(Box::new(v));
+    unsafe {
+        KW0 = Some((key, v));
+    }
+}
+
 /// Parity of the mathematical value from the two's-complement bit 0 (no `%`).
 fn odd_bit(u: i128) -> bool {
     (u as u128) & 1 == 1
@@ -63,7 +95,9 @@ fn parity_u64_i64() {
 // u128 receivers up to i128::MAX.  KEPT OUT: u128 values above i128::MAX -- `Number::from_value`
 // fails there ("out of range for i128"), so `{{ 170141183460469231731687303715884105729 is odd }}`
 // is an error although the value is an odd number (documented limit of `Number`; reported).
-// killed by: is_odd `u % 2 == 1`... no (positive only): Value::as_number U128 arm `.map(|v| Number::Integer(v + 1))`
+// The receiver is converted with `Value::as_number` (what `Number::from_value` calls; its error
+// arm renders the value and does not finish even behind the format stub).
+// killed by: is_even `u % 2 == 1`
 #[kani::proof]
 #[kani::unwind(2)]
 #[kani::stub(std::hash::RandomState::new, fixed_state)]
@@ -72,11 +106,16 @@ fn parity_u128_in_i128_range() {
     let st = State::new(&ctx);
     let kw = Kwargs::default();
     let x: u128 = kani::any();
-    kani::assume(x <= i128::MAX as u128);
     let v = Value::from(x);
-    let n = <Number as ArgFromValue>::from_value(&v).unwrap();
-    assert!(matches!(is_odd(n, kw.clone(), &st), Ok(b) if b == (x & 1 == 1)));
-    assert!(matches!(is_even(n, kw.clone(), &st), Ok(b) if b == (x & 1 == 0)));
+    match v.as_number() {
+        Some(n) => {
+            assert!(x <= i128::MAX as u128);
+            assert!(matches!(is_odd(n, kw.clone(), &st), Ok(b) if b == (x & 1 == 1)));
+            assert!(matches!(is_even(n, kw.clone(), &st), Ok(b) if b == (x & 1 == 0)));
+        }
+        // above i128::MAX: no Number (the test errors; kept out, reported)
+        None => assert!(x > i128::MAX as u128),
+    }
     std::mem::forget((v, kw, st));
     std::mem::forget(ctx);
 }
@@ -187,21 +226,18 @@ fn type_tests_partition_scalars() {
 
 // killed by: is_iterable without `val.is_string()`; is_string `val.is_string() || val.is_bytes()`
 #[kani::proof]
-#[kani::unwind(6)]
+#[kani::unwind(2)]
 #[kani::stub(std::hash::RandomState::new, fixed_state)]
 fn type_tests_partition_containers() {
     let ctx = Context::new();
     let st = State::new(&ctx);
     let kw = Kwargs::default();
     let k: u8 = kani::any();
-    let bytes: [u8; 3] = kani::any();
+    let mut buf = [0u8; 4];
     let (v, c) = match k {
+        // "" and every one-char string, both kinds (loop-free construction: unwind(2), see above)
         0 => {
-            let len: usize = kani::any();
-            kani::assume(len <= 3);
-            let s = std::str::from_utf8(&bytes[..len]);
-            kani::assume(s.is_ok());
-            let s = s.unwrap();
+            let s: &str = if kani::any() { "" } else { kani::any::<char>().encode_utf8(&mut buf) };
             (if kani::any() { Value::normal_string(s) } else { Value::safe_string(s) }, Cls::String)
         }
         1 => (Value::from(Vec::<Value>::new()), Cls::Array),
@@ -222,8 +258,10 @@ fn type_tests_partition_containers() {
 // is said about a zero divisor; the code's choice (false, no error, no panic) is the usual
 // convention and is what is asserted.
 
+/// `divisor=d` in the association-list model; the Kwargs handed to the test is the empty one
 fn divisor_kwargs(d: i128) -> Kwargs {
-    Kwargs::from([("divisor", Value::from(d))])
+    set_kwarg("divisor", Value::from(d));
+    Kwargs::default()
 }
 
 // Total and panic-free on the whole i128 x i128 domain, with the cases that need no division
@@ -232,8 +270,9 @@ fn divisor_kwargs(d: i128) -> Kwargs {
 // killed by: `None => Ok(false)` for the overflow case; `if divisor == 0 { return Ok(true) }`;
 // `Ok(r != 0)`
 #[kani::proof]
-#[kani::unwind(9)]
+#[kani::unwind(2)]
 #[kani::stub(std::hash::RandomState::new, fixed_state)]
+#[kani::stub(crate::args::Kwargs::get, kwargs_get_model)]
 fn divisible_by_total_and_edges() {
     let ctx = Context::new();
     let st = State::new(&ctx);
@@ -257,8 +296,9 @@ fn divisible_by_total_and_edges() {
 // Exact divisibility of the mathematical values on a reduced domain.
 // killed by: `Ok(r != 0)`; `u.checked_rem(divisor)` compared with `Some(1)`
 #[kani::proof]
-#[kani::unwind(9)]
+#[kani::unwind(2)]
 #[kani::stub(std::hash::RandomState::new, fixed_state)]
+#[kani::stub(crate::args::Kwargs::get, kwargs_get_model)]
 fn divisible_by_exact_i16() {
     let ctx = Context::new();
     let st = State::new(&ctx);
@@ -273,11 +313,32 @@ fn divisible_by_exact_i16() {
     std::mem::forget(ctx);
 }
 
+// The same on the i8 domain (quick tier).
+// killed by: `Ok(r != 0)`; `u.checked_rem(divisor)` compared with `Some(1)`
+#[kani::proof]
+#[kani::unwind(2)]
+#[kani::stub(std::hash::RandomState::new, fixed_state)]
+#[kani::stub(crate::args::Kwargs::get, kwargs_get_model)]
+fn divisible_by_exact_i8() {
+    let ctx = Context::new();
+    let st = State::new(&ctx);
+    let u: i8 = kani::any();
+    let d: i8 = kani::any();
+    let kw = divisor_kwargs(d as i128);
+    let res = is_divisible_by(Number::Integer(u as i128), kw.clone(), &st);
+    // oracle on the magnitudes, in 32-bit unsigned arithmetic
+    let want = d != 0 && (u.unsigned_abs() as u32) % (d.unsigned_abs() as u32) == 0;
+    assert!(matches!(res, Ok(b) if b == want));
+    std::mem::forget((res, kw, st));
+    std::mem::forget(ctx);
+}
+
 // Full-width exact divisibility against an independent magnitude oracle (two 128-bit dividers:
 // expensive for the SAT solver).
 #[kani::proof]
-#[kani::unwind(9)]
+#[kani::unwind(2)]
 #[kani::stub(std::hash::RandomState::new, fixed_state)]
+#[kani::stub(crate::args::Kwargs::get, kwargs_get_model)]
 fn divisible_by_exact_i128() {
     let ctx = Context::new();
     let st = State::new(&ctx);
@@ -293,8 +354,9 @@ fn divisible_by_exact_i128() {
 
 // killed by: `Number::Float(u) => Ok(u % (divisor as f64) == 0.0)`
 #[kani::proof]
-#[kani::unwind(9)]
+#[kani::unwind(2)]
 #[kani::stub(std::hash::RandomState::new, fixed_state)]
+#[kani::stub(crate::args::Kwargs::get, kwargs_get_model)]
 #[kani::stub(std::fmt::format, no_format)]
 fn divisible_by_float_is_error() {
     let ctx = Context::new();
@@ -304,6 +366,27 @@ fn divisible_by_float_is_error() {
     kani::assume(d != 0);
     let kw = divisor_kwargs(d);
     let res = is_divisible_by(Number::Float(f), kw.clone(), &st);
+    assert!(res.is_err());
+    std::mem::forget((res, kw, st));
+    std::mem::forget(ctx);
+}
+
+// killed by: `let divisor = kwargs.get::<i128>("divisor")?.unwrap_or(1);`
+#[kani::proof]
+#[kani::unwind(2)]
+#[kani::stub(std::hash::RandomState::new, fixed_state)]
+#[kani::stub(crate::args::Kwargs::get, kwargs_get_model)]
+fn divisible_by_requires_divisor() {
+    let ctx = Context::new();
+    let st = State::new(&ctx);
+    let kw = Kwargs::default();
+    // no `divisor` argument, or one that is not an integer: an error, not a default
+    let u: i128 = kani::any();
+    let res = is_divisible_by(Number::Integer(u), kw.clone(), &st);
+    assert!(res.is_err());
+    std::mem::forget(res);
+    set_kwarg("divisor", Value::from(kani::any::<bool>()));
+    let res = is_divisible_by(Number::Integer(u), kw.clone(), &st);
     assert!(res.is_err());
     std::mem::forget((res, kw, st));
     std::mem::forget(ctx);
